@@ -94,3 +94,41 @@ Proof.
   destruct (Hall r' Hr') as [Hh _]. unfold has in Hh. destruct (get f r') as [v|] eqn:G; [|discriminate].
   unfold bucket_of. cbn [fst snd]. unfold getd. rewrite G. rewrite put_put_same, join_split1. now apply put_get_same.
 Qed.
+
+(* ------------------------------------------------------------------ reorder -e: where the named fields go *)
+Lemma remove_app_present k (a b : record) : In k (keys a) -> remove k (a ++ b) = remove k a ++ b.
+Proof.
+  induction a as [|[k' v'] a IH]; cbn; intros H; [contradiction|].
+  destruct (beqb_spec k k') as [->|Hne]; [reflexivity|]. cbn. f_equal. apply IH. destruct H as [H|H]; [congruence|exact H].
+Qed.
+
+Lemma pick_app a b r : pick (a ++ b) r = pick a r ++ pick b r.
+Proof. unfold pick. apply flat_map_app. Qed.
+
+Lemma mem_app k a b : mem k (a ++ b) = mem k a || mem k b.
+Proof. unfold mem. apply existsb_app. Qed.
+
+Theorem reorder_e_spec fs r : NoDup fs -> wf r -> reorder_e fs r = filter (unnamed fs) r ++ pick fs r.
+Proof.
+  intros Hnd Hwf. induction fs as [|f fs IH] using rev_ind.
+  - cbn. rewrite app_nil_r. symmetry. apply filter_all_true. reflexivity.
+  - assert (Hnd' : NoDup fs /\ ~ In f fs).
+    { apply NoDup_remove in Hnd. rewrite app_nil_r in Hnd. exact Hnd. }
+    destruct Hnd' as [Hnd' Hni].
+    unfold reorder_e. rewrite fold_left_app. cbn [fold_left]. fold (reorder_e fs r). rewrite (IH Hnd').
+    assert (Hun : forall v, unnamed fs (f, v) = true).
+    { intros v. unfold unnamed. cbn. destruct (mem f fs) eqn:M; [apply mem_In in M; contradiction|reflexivity]. }
+    assert (Hpk : ~ In f (keys (pick fs r))) by (intros H; apply Hni; eapply pick_keys_incl; eauto).
+    assert (E : filter (unnamed (fs ++ [f])) r = filter (fun kv => negb (beqb f (fst kv))) (filter (unnamed fs) r)).
+    { rewrite filter_filter. apply filter_ext. intros [k v]. unfold unnamed. cbn [fst]. rewrite mem_app. cbn.
+      rewrite orb_false_r, (beqb_sym k f). destruct (beqb f k), (mem k fs); reflexivity. }
+    unfold move_to_tail. rewrite get_app, (get_filter_keep _ _ _ Hun). rewrite pick_app. cbn [pick flat_map]. rewrite app_nil_r.
+    destruct (get f r) as [v|] eqn:G.
+    + assert (Hin : In f (keys (filter (unnamed fs) r))).
+      { apply has_true_in. unfold has. rewrite (get_filter_keep _ _ _ Hun), G. reflexivity. }
+      rewrite remove_app_present by exact Hin. rewrite remove_filter by (apply wf_filter; exact Hwf). rewrite E.
+      now rewrite <- app_assoc.
+    + rewrite (proj2 (get_None_notin _ _) Hpk). rewrite app_nil_r. f_equal. rewrite E. symmetry.
+      apply filter_all_true. intros [k v] Hin. cbn. apply negb_true_iff, beqb_false. intros ->.
+      apply filter_In in Hin. destruct Hin as [Hin _]. apply (proj1 (get_None_notin _ _) G). apply (in_map fst) in Hin. exact Hin.
+Qed.
